@@ -64,11 +64,14 @@ Spellings == {"long", "short"}          \* "Minimum: 1" vs "min: 1", "Required:"
 \* one operation of the program
 Op(m, p, tg, id, rs, bl, pk, sp) == [method |-> m, path |-> p, tags |-> tg, id |-> id, resp |-> rs, blocks |-> bl, params |-> pk, spell |-> sp]
 
+\* a name in a Responses: block denotes the swagger:response of that name - also when a swagger:model
+\* has the same name (validationError is both); the document refers to it as #/responses/<name>
+RespRef(n) == "#/responses/" \o n
 RespOf(r) ==
   CASE r = "none" -> <<>>
-    [] r = "default_only" -> [default |-> "genericError"]
-    [] r = "ok_and_default" -> [default |-> "genericError", r200 |-> "petResponse"]
-    [] r = "three" -> [default |-> "genericError", r200 |-> "petResponse", r422 |-> "validationError"]
+    [] r = "default_only" -> [default |-> RespRef("genericError")]
+    [] r = "ok_and_default" -> [default |-> RespRef("genericError"), r200 |-> RespRef("petResponse")]
+    [] r = "three" -> [default |-> RespRef("genericError"), r200 |-> RespRef("petResponse"), r422 |-> RespRef("validationError")]
 
 ParamOf(k) ==
   CASE k = "q_string"        -> [name |-> "q", loc |-> "query", type |-> "string", required |-> FALSE]
@@ -90,7 +93,7 @@ ExpectedOp(o) ==
    params |-> {ParamOf(k) : k \in o.params}]
 
 \* model menu
-ModelKinds == {"plain", "validated", "allof", "strfmt", "ignored_field", "enum", "nested"}
+ModelKinds == {"plain", "validated", "allof", "strfmt", "ignored_field", "enum", "nested", "named_like_response"}
 ExpectedModel(k) ==
   CASE k = "plain"     -> [name |-> "pet", props |-> {"id", "name"}, required |-> {"id"}]
     [] k = "validated" -> [name |-> "validated", props |-> {"count", "label"}, required |-> {}]
@@ -99,6 +102,7 @@ ExpectedModel(k) ==
     [] k = "ignored_field" -> [name |-> "partial", props |-> {"shown"}, required |-> {}]
     [] k = "enum"      -> [name |-> "colored", props |-> {"color"}, required |-> {}]
     [] k = "nested"    -> [name |-> "outer", props |-> {"inner"}, required |-> {}]
+    [] k = "named_like_response" -> [name |-> "validationError", props |-> {"code"}, required |-> {}]
 
 \* observed operation record o2 (same shape, built by the harness from the scanned document)
 ParamMatches(e, ps) == \E p \in ps : \A k \in DOMAIN e : k \in DOMAIN p /\ p[k] = e[k]
